@@ -103,6 +103,8 @@ class SimRcs380(object):
             return [ACK]
         if k == "io_read":
             return [ACK, ("raise", f.arg)]
+        if k == "io_ack":
+            return [("raise", f.arg)]
         if k == "errframe":
             return [ACK, b"\x00\x00\xff\xff\xff"]
         if k == "raw":
